@@ -99,3 +99,9 @@ package throttle
 //@   ensures [C05] ratelimit.bucketRate(result.bucket) == real(minSeconds * camera.FPS()) / time.dsecs(config.MinRefill)
 //@   ensures [C06] !isnil(eventListener) ==> result.listener == eventListener
 //@   ensures !result.open && result.next == 0
+
+//@ func NewConfig
+//@   mode permissive
+//@   allocates
+//@   ensures result1 == nil ==> result0 != nil
+//@   check [C11,C05] ncalls("Unmarshal") == 1 && callarg("Unmarshal", 1, 1) == config.ThermalThrottlerKey && ncalls("DefaultThermalThrottler") == 1
